@@ -96,7 +96,7 @@ for sz in (1, 2, 4):
         d['mins'] = lambda a, b: '(%s < %s ? %s : %s)' % (S(a), S(b), S(a), S(b))
         d['minu'] = lambda a, b: '(%s < %s ? %s : %s)' % (Z(a), Z(b), Z(a), Z(b))
         # low half of the product: identical for the signed and the unsigned reading of the operands
-        d['mull'] = lambda a, b: '(%s * %s)' % (S(a), S(b)) if sz < 4 else '((unsigned long)(%s) * (unsigned long)(%s))' % (a, b)
+        d['mull'] = lambda a, b: '(%s * %s)' % (S(a), S(b)) if sz < 4 else '((unsigned int)(%s) * (unsigned int)(%s))' % (a, b)
         d['mulhs'] = lambda a, b: '((%s * %s) >> %d)' % (S(a), S(b), 8 * sz)
         d['mulhu'] = lambda a, b: ('(((unsigned int)(%s) * (unsigned int)(%s)) >> %d)' % (a, b, 8 * sz)) if sz < 4 else \
             '(((unsigned long)(%s) * (unsigned long)(%s)) >> 32)' % (a, b)
